@@ -172,14 +172,15 @@ CLAIMS = {
 
 # rules added after wave 8 (DESIGN.md 6.10)
 _ADDED = {
-    'C04': ' Instance attributes: the self-attribute filter keeps a `<receiver>.x = ...` on the receiver\'s goto result alone (closures nested in methods included; path summary of _is_in_right_scope) and drops candidates only for the six listed reasons (C04.j).',
-    'C05': ' The keyword of a call argument is linked to the parameter of every signature of every callable the callee may be: the walk over values x signatures x parameter names has no early exit (C05.g).',
-    'C06': ' The parenthesisation of inline is decided as a table over four facts of the use site and the value\'s tuple-ness (C06.a): nothing else can switch the parentheses off.',
-    'C07': ' White space of the original is carried over as text: no indentation or padding is synthesised from a count, the indentation of a replacement statement is the last line of the first leaf\'s prefix (C07.k).',
+    'C01': ' Optional values of the signature/keyword helpers (the typed key of `**<expr>`, the pydoc topic of True/None) are used only under the test or handler that makes them safe (C01.s).',
+    'C04': ' Instance attributes: the self-attribute filter keeps a `<receiver>.x = ...` on the receiver\'s goto result alone (closures nested in methods included; path summary of _is_in_right_scope) and drops candidates only for the six listed reasons (C04.j); the seen-set of filter_names holds only keys of completions that were offered (C04.k, a genuine defect repaired).',
+    'C05': ' The keyword of a call argument is linked to the parameter of every signature of every callable the callee may be: the walk over values x signatures x parameter names has no early exit (C05.g); a defining name is passed over by the global-statement step only when it has no tree name (C05.h).',
+    'C06': ' The parenthesisation of inline is decided as a table over four facts of the use site and the value\'s tuple-ness (C06.a): nothing else can switch the parentheses off; the use site of a name that ends an attribute chain is the parent of the chain (a genuine defect repaired).',
+    'C07': ' White space of the original is carried over as text: no indentation or padding is synthesised from a count, the indentation of a replacement statement is the last line of the first leaf\'s prefix (C07.k); which files move with a renamed directory is a decision table over (is the path / lies below it) (C07.h); inline deletes a token only when its prefix is blank (C07.l).',
     'C09': ' Freshness is judged by the full-resolution modification time: every get_last_modified returns os.path.getmtime/None, parso\'s implementation comes first in the MRO of the file-backed IO classes, no truncation anywhere (C09.e).',
-    'C11': ' The collected keyword-only parameters of forwarded callables are emitted through one loop that skips and registers names in used_names (no parameter named twice, C11.f).',
-    'C15': ' Memoising constructors stay memoising where per-object caches bound the work (GenericClass wrappers of base classes, TypeVar, TreeArguments: C15.g).',
-    'C18': ' The dotted name of the analysed file is computed against the search path without the buffer\'s own ancestor directories (C18.g).',
+    'C11': ' The collected keyword-only parameters of forwarded callables are emitted through one loop that skips and registers names in used_names (no parameter named twice, C11.f); pass-through detection decides by goto alone and a `name=` argument is the named one as soon as the cursor is behind the `=` (C11.g).',
+    'C15': ' Memoising constructors stay memoising where per-object caches bound the work (GenericClass wrappers of base classes, TypeVar, TreeArguments: C15.g); the memo decorator stores every result and removes nothing (C15.h).',
+    'C18': ' The dotted name of the analysed file is computed against the search path without the buffer\'s own ancestor directories (C18.g); the per-state memo table is touched by the memo decorators only, parent() keeps no hand-keyed table (C18.h).',
 }
 for _k, _v in _ADDED.items():
     CLAIMS[_k]['level'] += _v
